@@ -57,6 +57,7 @@ func (l *RootPeerList) Add(hostPort string) *Peer {
 	}
 
 	l.RUnlock()
+	verifPoint("rootpeers.Add.afterMiss", 0)
 	l.Lock()
 	defer l.Unlock()
 
